@@ -999,3 +999,69 @@ pub proof fn lemma_br_value_copy(c: BricksDomain, a: BricksDomain, w: Seq<char>)
         }
     }
 }
+
+// ---------------- merge_bricks_with_bound_one (rule 2): the loop over the cartesian product --------------------------------
+
+/// one round of the loop: the string inserted is first + second component of pair n
+pub proof fn lemma_br_prod_step(p: Seq<(&String, &String)>, n: int, set: Set<String>, t: String)
+    requires
+        0 <= n < p.len(),
+        // what `str1.clone() + str2` computed (PROVED at the call from the contracts of String::clone and verif_br_concat)
+        t@ == p[n].0@ + p[n].1@,
+        forall |z: Seq<char>| #[trigger] br_member(set, z) <==> br_prod_partial(p, n, z),
+    ensures
+        forall |z: Seq<char>| #[trigger] br_member(set.insert(t), z) <==> br_prod_partial(p, n + 1, z),
+{
+    let s2 = set.insert(t);
+    assert forall |z: Seq<char>| #[trigger] br_member(s2, z) <==> br_prod_partial(p, n + 1, z) by {
+        if br_member(s2, z) {
+            let s = choose |s: String| #[trigger] s2.contains(s) && s@ == z;
+            if s == t {
+                assert(z =~= (#[trigger] p[n]).0@ + p[n].1@);
+            } else {
+                assert(set.contains(s) && s@ == z);
+                assert(br_member(set, z));
+                let k = choose |k: int| 0 <= k < n && z =~= (#[trigger] p[k]).0@ + p[k].1@;
+                assert(0 <= k < n + 1 && z =~= (#[trigger] p[k]).0@ + p[k].1@);
+            }
+        }
+        if br_prod_partial(p, n + 1, z) {
+            let k = choose |k: int| 0 <= k < n + 1 && z =~= (#[trigger] p[k]).0@ + p[k].1@;
+            if k == n {
+                assert(s2.contains(t) && t@ == z);
+            } else {
+                assert(0 <= k < n && z =~= (#[trigger] p[k]).0@ + p[k].1@);
+                assert(br_member(set, z));
+                let s = choose |s: String| #[trigger] set.contains(s) && s@ == z;
+                assert(s2.contains(s) && s@ == z);
+            }
+        }
+    }
+}
+
+/// all rounds: the concatenated pairs of the cartesian product of a and b are exactly br_product(a, b, .)
+pub proof fn lemma_br_prod_all(p: Seq<(&String, &String)>, a: Set<String>, b: Set<String>)
+    requires
+        br_cart_of(p, a, b),
+    ensures
+        forall |z: Seq<char>| #[trigger] br_prod_partial(p, p.len() as int, z) <==> br_product(a, b, z),
+        forall |z: Seq<char>| !br_prod_partial(p, 0, z),
+{
+    assert forall |z: Seq<char>| #[trigger] br_prod_partial(p, p.len() as int, z) <==> br_product(a, b, z) by {
+        if br_prod_partial(p, p.len() as int, z) {
+            let k = choose |k: int| 0 <= k < p.len() && z =~= (#[trigger] p[k]).0@ + p[k].1@;
+            let u = p[k].0@;
+            let v = p[k].1@;
+            assert(a.contains(*p[k].0) && b.contains(*p[k].1));
+            assert(br_member(a, u) && br_member(b, v) && z =~= u + v);
+        }
+        if br_product(a, b, z) {
+            let (u, v) = choose |u: Seq<char>, v: Seq<char>| #![trigger u + v] br_member(a, u) && br_member(b, v) && z =~= u + v;
+            let x = choose |s: String| #[trigger] a.contains(s) && s@ == u;
+            let y = choose |s: String| #[trigger] b.contains(s) && s@ == v;
+            assert(a.contains(x) && b.contains(y));
+            let i = choose |i: int| 0 <= i < p.len() && *(#[trigger] p[i]).0 == x && *p[i].1 == y;
+            assert(z =~= (#[trigger] p[i]).0@ + p[i].1@);
+        }
+    }
+}
